@@ -24,6 +24,9 @@ TRUSTED = [
     "number of subsystems n and the permutation are enumerated (n<=4 quick, n<=5 thorough), not quantified",
 ]
 ASSUMPTIONS = TRUSTED
+TECHNIQUE = 'VC generation from the real AST (symbolic shapes, mixed-radix numerals) + z3/cvc5/normal-form discharge, per (n, permutation) for all dimensions and entries; counter-models replayed on the real code; bounded run-time contracts as stand-in for the float prelude and sparse inputs'
+LEVEL_TEXT = 'Proof per enumerated (n <= 4/5, permutation, flags, calling form) instance: for ALL local dimensions and ALL entry values the real bodies of vec, permute_systems, swap, permutation_operator, swap_operator satisfy the relabelling contract (callers verified against callee contracts only); lemmas L1 (inverse), L2 (injective => unitary) over the contracts. Not proved: n beyond the enumeration, the float dimension prelude (dim omitted/scalar), sparse inputs, dtype preservation -- those are bounded run-time contract checks.'
+ENGINES = ["E1-pyvc", "E3-E4-rtc"]
 from props.index_clauses import CLAUSES  # noqa: E402,F401
 
 
